@@ -9,7 +9,7 @@ from loki.analyse import dataflow_analysis_attached
 from loki.expression import symbols as sym, Variable
 from loki.ir import (
     CallStatement, PragmaRegion, Section, FindNodes,
-    FindVariables, Transformer, is_loki_pragma,
+    FindVariables, FindInlineCalls, Transformer, is_loki_pragma,
     get_pragma_parameters, pragma_regions_attached
 )
 from loki.logging import info
@@ -103,6 +103,16 @@ def outline_region(region, name, imports, intent_map=None):
         s for s in region_shape_symbols if s.clone(dimensions=None) not in imported_symbols
     )
     region_in_args |= region_shape_symbols - region_uses_symbols - region_defines_symbols
+
+    # Variables that the region only enquires about (SIZE, LBOUND, UBOUND, PRESENT) are neither
+    # used nor defined for the dataflow analysis, but the new routine needs them nevertheless
+    region_query_symbols = OrderedSet(
+        (v.parents[0] if v.parent else v).clone(dimensions=None)
+        for call in FindInlineCalls().visit(region.body)
+        if call.function in ('size', 'lbound', 'ubound', 'present')
+        for v in sorted(FindVariables().visit(call.parameters), key=str)
+    )
+    region_in_args |= region_query_symbols - region_uses_symbols - region_defines_symbols - imported_symbols
 
     # Remove any parameters from in args
     region_in_args = OrderedSet(arg for arg in region_in_args if not arg.type.parameter)
